@@ -483,6 +483,69 @@ func sessionPairTrial(r *vh.Run, i int) {
 	}
 }
 
+// shutdownStalledTrial: "Close/Shutdown return" - also when a client has started a request that keeps its repository
+// (a manifest PUT) and never finishes it.  Shutdown is given a context that ends after 300 ms (serve gives 30 s): when
+// it ends, the connection is cut off, the handler returns, the store can be closed; Shutdown and Run return.  Stable-
+// stall rule with one addition: the handler waiting in its read ("IO wait") counts as blocked here, because the only
+// peer of the only connection is this trial, which sends nothing more - with the store waiting for that handler,
+// every goroutine inside olareg is blocked for good.
+func shutdownStalledTrial(r *vh.Run, i int) {
+	kind := []vh.StoreKind{vh.Mem, vh.Dir}[i%2]
+	root := ""
+	if kind != vh.Mem {
+		root = r.TempDir("c12z")
+		defer vh.RemoveAll(root)
+	}
+	port := freePort()
+	c := vh.Conf(kind, root, vh.Neutral)
+	c.HTTP.Addr = fmt.Sprintf("127.0.0.1:%d", port)
+	srv := vh.New(c)
+	wit := map[string]any{"trial": i, "store": kind.String()}
+	runDone := make(chan error, 1)
+	go func() { runDone <- srv.Run(context.Background()) }()
+	addr := fmt.Sprintf("127.0.0.1:%d", port)
+	up := false
+	for k := 0; k < 400 && !up; k++ {
+		if cn, err := net.DialTimeout("tcp", addr, 200*time.Millisecond); err == nil {
+			_, _ = cn.Write([]byte("GET /v2/ HTTP/1.1\r\nHost: x\r\nConnection: close\r\n\r\n"))
+			_, _ = io.ReadAll(cn)
+			_ = cn.Close()
+			up = true
+		} else {
+			time.Sleep(10 * time.Millisecond)
+		}
+	}
+	if !up {
+		r.Inconclusive("listener did not come up (port taken?)")
+		_ = srv.Close()
+		return
+	}
+	cn, err := net.DialTimeout("tcp", addr, time.Second)
+	if err != nil {
+		r.Inconclusive("shutdownStalledTrial: dial: " + err.Error())
+		_ = srv.Close()
+		return
+	}
+	defer cn.Close()
+	_, _ = cn.Write([]byte("PUT /v2/z/manifests/stalled HTTP/1.1\r\nHost: x\r\nContent-Type: application/vnd.oci.image.manifest.v1+json\r\nContent-Length: 500\r\n\r\n{\"schemaVersion\":2,"))
+	time.Sleep(100 * time.Millisecond) // the handler holds repository z and waits for the rest of the body
+	res := vh.Watch(func() {
+		ctx, cancel := context.WithTimeout(context.Background(), 300*time.Millisecond)
+		defer cancel()
+		_ = srv.Shutdown(ctx)
+		<-runDone
+	}, 3*time.Second, 60*time.Second, "IO wait") // the only client is this trial and it sends nothing more
+	r.Count("shutdown_stalled_trials", 1)
+	if res.Stalled {
+		wit["blocked_goroutines"] = res.Desc
+		r.Violation("shutdown-hangs:stalled-request", fmt.Sprintf("%s store: a client holds a manifest PUT open that it never finishes; Shutdown with a context that ended long ago does not return - the request is not cut off and the store waits for it", kind), wit)
+		return
+	}
+	if !res.Done {
+		r.Inconclusive("shutdownStalledTrial: still running after 60 s without a stable stall")
+	}
+}
+
 // failedCompletionTrial: the completion of an upload fails inside the store (the place of the blob is taken by a
 // directory, or the session's file has disappeared under it).  Whatever that request is answered: the repository
 // stays usable - a listing, a new push and Close return.  Stable-stall rule.
@@ -926,6 +989,14 @@ func main() {
 		before := r.Violations()
 		for i := 0; i < nfc && r.Violations() == before; i++ {
 			failedCompletionTrial(r, i)
+		}
+		st = r.Violations() > before
+	}
+	if !st {
+		nz := r.N(4, 24)
+		before := r.Violations()
+		for i := 0; i < nz && r.Violations() == before; i++ { // one at a time: the stall rule looks at the whole process
+			shutdownStalledTrial(r, i)
 		}
 		st = r.Violations() > before
 	}
